@@ -663,13 +663,18 @@ def scen_cache_subdir(rng):
     else:
         cache = '%s/cache.gz' % d1; out1 = '%s/x' % d1
     out2 = '%s/%s/y' % (d2, d1)
+    # a build_file directly in the directory made for the cache file (or one level below it) that fails, caught: the
+    # directory is the cache file's, whatever the failed call's bookkeeping thinks of it
+    cdir = cache.rsplit('/', 1)[0]
+    failing = [_bf('%s/%s' % (cdir, rng.choice(['bad', 'sub/bad'])), 2, catch=True)] if rng.random() < 0.5 else []
     funcs = [
-        _fn('f0', [['if', ['arg', _e(0)], [_bf(out1, 1, catch=True), _bf(out2, 1, arg=1, catch=True)], [_bf(out2, 1, arg=1, catch=True)]],
-                   _q('is_file', out2), _q('list_dir', d2)]),
+        _fn('f0', [['if', ['arg', _e(0)], [_bf(out1, 1, catch=True), _bf(out2, 1, arg=1, catch=True)], [_bf(out2, 1, arg=1, catch=True)]]] + failing +
+                  [_q('is_file', out2), _q('list_dir', d2)]),
         _fn('f1', [['w', None]]),
+        _fn('f2', rng.choice([[['raise', 8]], [['w', None], ['raise', 8]], []])),
     ]
     funcs.append(_fn('rootfail', funcs[0]['stmts'] + [['raise', 99]]))
-    steps = [_build(arg=0), _build(arg=rng.choice([0, 1])), _build(arg=0, root=rng.choice([0, 0, 2])), _build(arg=rng.choice([0, 1]))]
+    steps = [_build(arg=0), _build(arg=rng.choice([0, 1])), _build(arg=0, root=rng.choice([0, 0, 3])), _build(arg=rng.choice([0, 1]))]
     steps.append(['clean', rng.choice(['n', None])])
     if rng.random() < 0.4:
         steps += [_build(arg=0), ['clean', 'n']]
@@ -1109,7 +1114,36 @@ def scen_sibling_outputs(rng):
     return c
 
 
-SCENARIOS = [scen_sibling_outputs, scen_fail_then_succeed, scen_reuse_inside_failing, scen_failed_target_becomes_dir, scen_funcname, scen_nested_failure, scen_swap, scen_stale_dir, scen_dups, scen_versions, scen_reads, scen_identity, scen_foreign_swap, scen_sibling_failure, scen_todir, scen_selfread, scen_file_becomes_parent, scen_olddir_becomes_target, scen_prefix_siblings, scen_overlay_order, scen_nested_reuse, scen_double_failure]
+def scen_read_after_caught_failure(rng):
+    """a function that makes a nested call fail, catches the failure, and only then reads its input (or lists a
+    directory): what it observed after the failure is part of its record like everything before"""
+    inp = rng.choice(PATHS2)
+    x = rng.choice([p for p in PATHS2 if p != inp and not p.startswith(inp + '/') and not inp.startswith(p + '/')])
+    mode = rng.choice('HHM')
+    failing = _bf(x, 2, catch=True) if rng.random() < 0.5 else _sb(2, catch=True)
+    before = [_q('exists', inp)] if rng.random() < 0.3 else []
+    outer_is_bf = rng.random() < 0.4
+    body = before + [failing, _q('read', inp, mode)] + ([['w', None]] if outer_is_bf else [])
+    funcs = [_fn('f0', [_bf('out_' + inp.replace('/', '_'), 1, catch=True) if outer_is_bf else _sb(1, catch=True)]),
+             _fn('f1', body),
+             _fn('f2', rng.choice([[['raise', 6]], [['w', None], ['raise', 6]]]))]
+    funcs.append(_fn('rootfail', funcs[0]['stmts'] + [['raise', 99]]))
+    tree = [[inp, 'file', 'i0', 150]]
+    steps = [_build()]
+    for i in range(rng.randint(1, 3)):
+        k = rng.choice(['write', 'samemeta', 'touch', 'none'])
+        if k == 'samemeta':
+            steps.append(['mut', 'samemeta', inp, None, None])
+        elif k != 'none':
+            steps.append(['mut', k, inp, 'm%d' % rng.randint(0, 9), 7100 + 10 * i])
+        steps.append(_build())
+    c = {'tree': tree, 'funcs': funcs, 'steps': steps}
+    if mode == 'M':
+        c['no_spec'] = True
+    return c
+
+
+SCENARIOS = [scen_read_after_caught_failure, scen_sibling_outputs, scen_fail_then_succeed, scen_reuse_inside_failing, scen_failed_target_becomes_dir, scen_funcname, scen_nested_failure, scen_swap, scen_stale_dir, scen_dups, scen_versions, scen_reads, scen_identity, scen_foreign_swap, scen_sibling_failure, scen_todir, scen_selfread, scen_file_becomes_parent, scen_olddir_becomes_target, scen_prefix_siblings, scen_overlay_order, scen_nested_reuse, scen_double_failure]
 
 
 def gen_scenario_cases(seed, per_family, dirsize=4096, families=SCENARIOS):
